@@ -213,7 +213,7 @@ def run_case(seed):
         # more than ten levels: level directories no longer sort like their numbers
         pf = gen.gen_deep_plotfile(rng, nlevels=rng.choice([11, 12, 13]), ndims=rng.choice([2, 3]), nfields=rng.randint(1, 3))
     else:
-        pf = gen.gen_plotfile(rng, allow_repeat=True, max_blocks=rng.choice([2, 3]))
+        pf = gen.gen_plotfile(rng, allow_repeat=True, max_blocks=rng.choice([2, 3]), odd_names=0.25)
     keys = reader_keys(pf.fields)
     path = core.scratch_dir(f"c01_{seed}")
     gen.write_plotfile(pf, path)
